@@ -1,5 +1,5 @@
 #!/bin/bash
-# Usage: verify_seed.sh <seed dir with patch.diff + demo_test.go> <package dir relative to repo root, "." for root> [go test flags for the demo, e.g. -race]
+# Usage: [ALSO_SUITE="<dir> ..."] verify_seed.sh <seed dir with patch.diff + demo_test.go> <package dir relative to repo root, "." for root> [go test flags for the demo, e.g. -race]
 # Confirms in a scratch worktree: the demo passes on the clean tree and fails with the patch; every test of the
 # module that is in the pinned baseline (BASELINE.json stable_pass) still passes with the patch (failed tests are
 # re-run once alone to discount timing flakes of the sleep-based examples).
@@ -17,6 +17,10 @@ go test -vet=off -count=1 $FLAGS -run "^($TESTS)\$" . > "$WT/clean.log" 2>&1; CL
 go test -vet=off -count=1 $FLAGS -run "^($TESTS)\$" . > "$WT/patched.log" 2>&1; PATCHED=$?
 rm -f zz_seed_demo_test.go
 go test -vet=off -count=1 -json ./... > "$WT/suite.json" 2>/dev/null
+# ALSO_SUITE: further module directories (relative to the repository root) whose pinned tests must still pass
+for extra in ${ALSO_SUITE:-}; do
+  ( cd "$WT/wt/$extra" && go test -vet=off -count=1 -json ./... >> "$WT/suite.json" 2>/dev/null )
+done
 python3 - "$WT/suite.json" <<'PY' > "$WT/failed.txt"
 import json,sys
 base=set(json.load(open('/root/.vp/BASELINE.json'))['stable_pass'])
@@ -29,11 +33,12 @@ for l in open(sys.argv[1]):
 pk={k.split('::')[0] for k in res}
 for b in sorted(base):
     if b.split('::')[0] in pk and res.get(b)!='pass' and '/' not in b.split('::')[1]:
-        print(b.split('::')[1])
+        print(b)
 PY
 STILL=""
-for t in $(cat "$WT/failed.txt"); do
-  go test -vet=off -count=1 -run "^$t\$" ./... >/dev/null 2>&1 || STILL="$STILL $t"
+for pt in $(cat "$WT/failed.txt"); do
+  pkgpath=${pt%%::*}; t=${pt##*::}
+  ( cd "$WT/wt" && go test -vet=off -count=1 -run "^$t\$" "$pkgpath" >/dev/null 2>&1 ) || STILL="$STILL $t"
 done
 echo "clean demo: $(tail -1 $WT/clean.log)"
 echo "patched demo: $(grep -E '^(--- FAIL|FAIL|ok|panic)' $WT/patched.log | head -3 | tr '\n' ' ')"
